@@ -2,6 +2,7 @@
 mod c03;
 mod c04;
 mod c10;
+mod c11;
 mod c13;
 mod c16;
 mod circ;
@@ -32,6 +33,9 @@ fn main() {
         "eval-file" => evalrec::cmd_eval_file(rest),
         "bitonic-direct" => c13::cmd_direct(rest),
         "join-record" => c13::cmd_record(rest),
+        "bristol-roundtrip" => c11::cmd_roundtrip(rest),
+        "bristol-corpus" => c11::cmd_corpus(rest),
+        "bristol-mutate" => c11::cmd_mutate(rest),
         "c16-replay" => c16::cmd_replay(rest),
         "c16-products" => c16::cmd_products(rest),
         "compile-one" => corpus::cmd_compile_one(rest),
